@@ -64,9 +64,25 @@ def deep_schemas(d):
 _deep = {}
 
 
+def context_schemas(d):
+    """Applicators whose errors carry `context`, below the root (so that the context errors' own paths are relative)."""
+    a, b, c = {"type": "string"}, {"minimum": 50}, {"properties": {"b": {"type": "string"}}, "required": ["zz"]} if d >= 4 else \
+        {"properties": {"b": {"type": "string"}, "zz": {"required": True}}}
+    inner = [[a, b], [c, a], [b, c, {"items": a}], [{"items": [a, b]}, {"additionalProperties": a}]]
+    out = []
+    for members in inner:
+        for kw in (("anyOf", "oneOf") if d >= 4 else ("type",)):
+            app = {kw: members}
+            out += [{"properties": {"a": app}}, {"items": app}, {"properties": {"a": {"items": app}}},
+                    {"additionalProperties": app}, {"items": [{}, app]}]
+            if d >= 4:
+                out.append({"properties": {"a": {"allOf": [app, {"anyOf": members}]}}})
+    return out
+
+
 def get_deep(d):
     if d not in _deep:
-        _deep[d] = deep_schemas(d)       # built in plan(), shared with the forked workers
+        _deep[d] = deep_schemas(d) + context_schemas(d)       # built in plan(), shared with the forked workers
     return _deep[d]
 
 
@@ -101,7 +117,8 @@ def plan(ctx):
                  "call granularity, 3 trees.  error collections = list(iter_errors(x)) for every check_schema-accepted schema of G(draft) "
                  "(singles, all ordered pairs, sibling groups%s, and the 'deep' schemas: a small constraint "
                  "applied at every level through three levels of items / additionalProperties, combined with "
-                 "required / draft-3 required / propertyNames at every level) x U_d (instances with pairwise "
+                 "required / draft-3 required / propertyNames at every level; and context-bearing applicators below the "
+                 "root, whose context errors also form collections of their own, filed by their relative paths) x U_d (instances with pairwise "
                  "distinct leaves%s) x 4 drafts with >= 1 error; each collection in EVERY arrival order when it has <= %d errors (n! "
                  "orders), otherwise in the n rotations of the collection and of its reversal (counted in "
                  "collections_above_permutation_limit). One evaluation = one arrival order: two ErrorTrees are built "
@@ -340,6 +357,24 @@ def check_history(errors, trie):
                                              {"at": list(pre), "filed_under": el0}))
                 except Exception as ex:
                     problems.append(("history|setitem-on-returned-tree|%s" % type(ex).__name__, {"at": list(pre)}))
+            # totals are a function of what the tree holds NOW: ask, file a subtree below this node through the public
+            # __setitem__, ask again -- at this node and at the root
+            if len(seq) == 1 and seq[0][0] == "with-errors" and errors:
+                try:
+                    t3 = ErrorTree(errors)
+                    n3 = t3
+                    for el in pre:
+                        n3 = n3[el]
+                    before_root, before_node = len(t3), len(n3)
+                    sub = ErrorTree(errors[:1])
+                    add = len(sub)
+                    n3[seq[0][1]]["filed-by-caller"] = sub
+                    if len(t3) != before_root + add or t3.total_errors != before_root + add or len(n3) != before_node + add:
+                        problems.append(("history|totals-after-setitem|stale", {"at": list(pre), "below": seq[0][1],
+                                                                              "root_before": before_root, "added": add,
+                                                                              "root_after": len(t3)}))
+                except Exception as ex:
+                    problems.append(("history|totals-after-setitem|%s" % type(ex).__name__, {"at": list(pre)}))
             it = list(iter(node))
             what = "+".join(k for k, _ in seq)
             if set(it) != want or len(it) != len(set(it)):
@@ -560,6 +595,34 @@ def run_unit(unit, ctx):
                 continue
             seen.add(ckey)
             ndistinct += 1
+            # the context errors of an error below the root form a collection of their own: an ErrorTree built from
+            # them files each under its own (relative) path, i.e. relative to the instance the parent was about
+            for pe in errors:
+                if pe.context and len(pe.absolute_path):
+                    sub = list(pe.context)
+                    ckey2 = (xkey, "ctx", tuple((tuple(e.path), e.validator, tuple(e.schema_path)) for e in sub))
+                    if ckey2 in seen:
+                        continue
+                    seen.add(ckey2)
+                    ev += 1
+                    nt += 1
+                    try:
+                        pr2 = check_order(sub, Trie(sub, pe.instance), history=False)
+                    except Exception as ex:
+                        pr2 = [("context-collection|" + type(ex).__name__, {})]
+                    if pr2:
+                        kind2 = pr2[0][0]
+                        sig2 = "C17|context-collection|%s" % kind2
+                        outcomes["problem:" + sig2] = outcomes.get("problem:" + sig2, 0) + 1
+                        slot = found.get(sig2)
+                        if slot is None:
+                            found[sig2] = slot = [0, None]
+                        slot[0] += 1
+                        size2 = len(json.dumps(S)) + len(xkey)
+                        if slot[1] is None or size2 < slot[1]["size"]:
+                            slot[1] = {"signature": sig2, "size": size2,
+                                       "case": {"draft": d, "schema": S, "instance": X, "context_of": ekey(pe)},
+                                       "detail": {"problems": [list(p) for p in pr2[:3]]}}
             trie = Trie(errors, X)
             interesting = n >= 2 or any(len(e.path) for e in errors)
             ords, cap = orders(n, limit)
@@ -615,6 +678,14 @@ def finish(merged, plan, ctx):
 
 
 def replay(case, ctx):
+    if case.get("context_of"):
+        d, S, X = case["draft"], case["schema"], case["instance"]
+        for pe in _e1.CLS[d](S).iter_errors(X):
+            if ekey(pe) == case["context_of"] and pe.context:
+                sub = list(pe.context)
+                pr = check_order(sub, Trie(sub, pe.instance), history=False)
+                return {"reproduced": bool(pr), "problems": [list(p) for p in pr[:3]]}
+        return {"reproduced": False, "why": "no such error"}
     if case.get("threads"):
         import os
         import jsonschema
